@@ -334,6 +334,7 @@ func vfC02Case(rt *rapid.T, c *ev.Collector) {
 			rt.Fatalf("VIOL[c02-wedge]: %v", err)
 		}
 		other := p0.N.PendingBytes(wire.B)
+		vfDrawSteer(rt)
 		p, err := vfStartPair(br, legacy, br.IAT)
 		if p != nil && p.N != nil {
 			defer p.N.Shutdown()
